@@ -8,13 +8,53 @@
 //!   oracle.txt  `<op index>\t<class>\t<detail>` per oracle failure
 //!   dist.json   evaluations, distinct non-trivial cases, counters (input distribution), samples
 mod common;
+mod c01;
+mod c02;
+mod c03;
+mod c04;
+mod c05;
+mod c06;
+mod c07;
+mod c08;
+mod c09;
+mod c10;
+mod c11;
+mod c12;
+mod c13;
+mod c14;
+mod c15;
 mod c16;
+mod c17;
+mod c18;
+mod c19;
+mod c20;
 
 use common::*;
 use std::io::Write;
 
 fn props() -> Vec<Box<dyn Prop>> {
-    vec![Box::new(c16::C16)]
+    vec![
+        Box::new(c01::C01),
+        Box::new(c02::C02),
+        Box::new(c03::C03),
+        Box::new(c04::C04),
+        Box::new(c05::C05),
+        Box::new(c06::C06),
+        Box::new(c07::C07),
+        Box::new(c08::C08),
+        Box::new(c09::C09),
+        Box::new(c10::C10),
+        Box::new(c11::C11),
+        Box::new(c12::C12),
+        Box::new(c13::C13),
+        Box::new(c14::C14),
+        Box::new(c15::C15),
+        Box::new(c16::C16),
+        Box::new(c17::C17),
+        Box::new(c18::C18),
+        Box::new(c19::C19),
+        Box::new(c20::C20),
+    ]
 }
 
 fn json_str(s: &str) -> String {
